@@ -15,35 +15,33 @@ Proof. exact int_of_string_dec. Qed.
 Theorem c18_forms_parse : forall f d, form_ok f = true -> parse_host_and_port (spell f) d = Ok (endpoint f d).
 Proof. exact forms_parse. Qed.
 
-(* command line without -p: accepted with exactly that endpoint (default 22) *)
+(* command line, with or without -p P: every spelling is accepted with exactly the endpoint it names; -p is only the
+   default port (repaired by fix 9a2ac5a; before it, host:port / [IPv6] / [IPv6]:port were not parsed when -p was given) *)
+Theorem c18_cli_forms : forall f oport, form_ok f = true -> oport_ok oport = true -> port_ok (form_port f (default_port oport)) = true ->
+  cli_single (spell f) oport = COk (form_host f) (form_port f (default_port oport)).
+Proof. exact cli_forms. Qed.
 Theorem c18_cli_forms_no_port_option : forall f, form_ok f = true -> port_ok (form_port f 22) = true ->
   cli_single (spell f) None = COk (form_host f) (form_port f 22).
 Proof. exact cli_forms_no_port_option. Qed.
+Theorem c18_cli_port_option : forall f P, form_ok f = true -> port_ok P = true -> port_ok (form_port f P) = true ->
+  cli_single (spell f) (Some P) = COk (form_host f) (form_port f P).
+Proof. exact cli_port_option. Qed.
 
-(* command line with -p P: holds for the spellings without own port and without brackets ... *)
-Theorem c18_cli_port_option_partial : forall f P, form_ok f = true -> form_has_port_or_brackets f = false -> port_ok P = true ->
-  cli_single (spell f) (Some P) = COk (form_host f) P.
-Proof. exact cli_port_option_partial. Qed.
-(* ... recorded finding: with -p the positional host:port / [IPv6] / [IPv6]:port is not parsed at all *)
-Theorem c18_cli_port_option_refuted : exists f P, form_ok f = true /\ port_ok P = true /\ port_ok (form_port f P) = true
-  /\ cli_single (spell f) (Some P) <> COk (form_host f) (form_port f P).
-Proof. exact cli_port_option_refuted. Qed.
-Theorem c18_cli_port_option_bracket_refuted : exists f P, form_ok f = true /\ port_ok P = true
-  /\ cli_single (spell f) (Some P) <> COk (form_host f) (form_port f P).
-Proof. exact cli_port_option_bracket_refuted. Qed.
-
-(* targets file: any number of blank lines and padded lines (spaces, tabs, ...), each line a documented spelling:
-   the targets are exactly the named endpoints, in order, with the given default port *)
+(* targets file: any number of blank or whitespace-only lines (`Blank pad`) and padded lines (spaces, tabs, ...), each
+   other line a documented spelling: the targets are exactly the named endpoints, in order, with the given default port
+   (whitespace-only lines: repaired by fix b3020b9) *)
 Theorem c18_file_forms : forall items d, forallb item_ok items = true ->
   file_targets (render items) d = Ok (map (fun f => endpoint f d) (forms_of items)).
 Proof. exact file_forms. Qed.
-(* recorded finding: a whitespace-only line becomes a target named '' *)
-Theorem c18_file_whitespace_line_refuted : exists pad, pad <> "" /\ forall_s pad_char pad = true
-  /\ file_targets (pad ++ String c_nl "")%string 22 = Ok [("", 22)].
-Proof. exact file_whitespace_line_refuted. Qed.
-(* recorded finding: a file without any target makes the tool audit the host '' *)
-Theorem c18_file_no_target_refuted : exists content r, file_lines content = [] /\ run_file content None [] r = RDone [audit_refused [] r "" 22].
-Proof. exact run_file_no_target_refuted. Qed.
+(* the same when the last line has no newline *)
+Theorem c18_file_forms_no_final_newline : forall items a f b d, forallb item_ok items = true -> item_ok (Tgt a f b) = true ->
+  file_targets (render items ++ a ++ spell f ++ b)%string d = Ok (map (fun g => endpoint g d) (forms_of items ++ [f])).
+Proof. exact file_forms_no_final_newline. Qed.
+Theorem c18_file_whitespace_line_skipped : forall pad, forall_s pad_char pad = true -> file_lines (pad ++ String c_nl "")%string = [].
+Proof. exact file_whitespace_line_skipped. Qed.
+(* a file that names no target is a usage error: nothing is audited (fix b3020b9) *)
+Theorem c18_file_no_target_rejected : forall content oport flags r, file_lines content = [] -> run_file content oport flags r = RExit.
+Proof. exact run_file_no_target. Qed.
 
 (* one audit resolves exactly (host, port) with the family of a single -4/-6, dials at most one address, and that
    address is a stream answer of the resolver for that host, of the requested family, with that port *)
@@ -55,15 +53,16 @@ Theorem c18_audit_dials_named : forall pref r h p,
                  /\ c = (e_fam e, e_ip e, p).
 Proof. exact audit_dials_named. Qed.
 
-(* a whole single-target run of a documented spelling: exactly one audit, of the named endpoint *)
-Theorem c18_run_single_named : forall f flags r, form_ok f = true -> port_ok (form_port f 22) = true ->
-  run_single (spell f) None flags r = RDone [audit_refused (pref_of_flags flags) r (form_host f) (form_port f 22)].
+(* a whole single-target run of a documented spelling, with or without -p: exactly one audit, of the named endpoint *)
+Theorem c18_run_single_named : forall f oport flags r, form_ok f = true -> oport_ok oport = true ->
+  port_ok (form_port f (default_port oport)) = true ->
+  run_single (spell f) oport flags r = RDone [audit_refused (pref_of_flags flags) r (form_host f) (form_port f (default_port oport))].
 Proof. exact run_single_named. Qed.
-(* a whole -T run of documented spellings with valid ports: one audit per named endpoint, in order *)
-Theorem c18_run_file_forms : forall items flags r, forallb item_ok items = true -> forms_of items <> [] ->
-  forallb (fun f => port_ok (form_port f 22)) (forms_of items) = true ->
-  run_file (render items) None flags r
-  = RDone (map (fun f => audit_refused (pref_of_flags flags) r (form_host f) (form_port f 22)) (forms_of items)).
+(* a whole -T run of documented spellings with valid ports, with or without -p: one audit per named endpoint, in order *)
+Theorem c18_run_file_forms : forall items oport flags r, forallb item_ok items = true -> forms_of items <> [] -> oport_ok oport = true ->
+  forallb (fun f => port_ok (form_port f (default_port oport))) (forms_of items) = true ->
+  run_file (render items) oport flags r
+  = RDone (map (fun f => audit_refused (pref_of_flags flags) r (form_host f) (form_port f (default_port oport))) (forms_of items)).
 Proof. exact run_file_forms. Qed.
 
 (* ports: nothing is ever resolved or dialled with a port outside 1..65535, for ANY argument / file / option *)
@@ -71,18 +70,30 @@ Theorem c18_single_ports_valid : forall arg oport flags r o, In o (obs_of (run_s
 Proof. exact run_single_ports. Qed.
 Theorem c18_file_ports_valid : forall content oport flags r o, In o (obs_of (run_file content oport flags r)) -> ports_valid o.
 Proof. exact run_file_ports. Qed.
-(* a bad -p is a usage error, a bad port in the argument ends the run before anything is resolved *)
-Theorem c18_bad_port_option_rejected : forall arg P flags r, port_ok P = false -> run_single arg (Some P) flags r = RExit.
+(* a run that does not complete (usage error or exception) has resolved and dialled NOTHING, for any input *)
+Theorem c18_single_rejected_before_connect : forall arg oport flags r,
+  match run_single arg oport flags r with RDone _ => True | o => obs_of o = [] end.
+Proof. exact run_single_rejected_clean. Qed.
+Theorem c18_file_rejected_before_connect : forall content oport flags r,
+  match run_file content oport flags r with RDone _ => True | o => obs_of o = [] end.
+Proof. exact run_file_rejected_clean. Qed.
+(* a bad -p: nothing resolved or dialled (usage error for a documented spelling and for any targets file) *)
+Theorem c18_bad_port_option_rejected : forall arg P flags r, port_ok P = false -> obs_of (run_single arg (Some P) flags r) = [].
 Proof. exact run_single_bad_option. Qed.
+Theorem c18_bad_port_option_rejected_form : forall f P flags r, form_ok f = true -> port_ok P = false -> run_single (spell f) (Some P) flags r = RExit.
+Proof. exact run_single_bad_option_form. Qed.
 Theorem c18_bad_port_option_rejected_file : forall content P flags r, port_ok P = false -> run_file content (Some P) flags r = RExit.
 Proof. exact run_file_bad_option. Qed.
-Theorem c18_bad_port_named_rejected : forall f flags r, form_ok f = true -> port_ok (form_port f 22) = false ->
-  run_single (spell f) None flags r = RCrash [].
+(* a bad port written with the target, with or without a (valid) -p: the run ends before anything is resolved *)
+Theorem c18_bad_port_named_rejected : forall f oport flags r, form_ok f = true -> oport_ok oport = true ->
+  port_ok (form_port f (default_port oport)) = false -> run_single (spell f) oport flags r = RCrash [].
 Proof. exact run_single_bad_named. Qed.
-(* recorded finding: an out-of-range port in a targets file aborts the run AFTER the other targets were dialled *)
-Theorem c18_file_bad_port_refuted : exists content r o,
-  run_file content None [] r = RCrash [o] /\ o_conn o <> [] /\ file_targets content 22 = Ok [("a", 22); ("b", 70000)].
-Proof. exact run_file_bad_port_refuted. Qed.
+(* one out-of-range port anywhere in a targets file: usage error before ANY target is scanned (fix b3020b9; before it
+   the other targets were dialled and the run died with a traceback) *)
+Theorem c18_file_bad_port_rejected : forall items oport flags r, forallb item_ok items = true ->
+  forallb (fun f => port_ok (form_port f (default_port oport))) (forms_of items) = false ->
+  run_file (render items) oport flags r = RExit.
+Proof. exact run_file_bad_port_rejected. Qed.
 
 (* IP version options: with a single -4 / -6 every address tried has that family *)
 Theorem c18_family_filter : forall pref r h l e, gai_family pref <> 0 ->
@@ -104,12 +115,9 @@ Theorem c18_flag_order_refuted : exists flags r h p ip4 ip6,
   flags = [6; 4] /\ table r h = [{| e_fam := AF_INET; e_type := SOCK_STREAM; e_ip := ip4 |}; {| e_fam := AF_INET6; e_type := SOCK_STREAM; e_ip := ip6 |}]
   /\ o_conn (audit_refused (pref_of_flags flags) r h p) = [(AF_INET, ip4, p)].
 Proof. exact flag_order_refuted. Qed.
-(* the connection rate test picks the same address as the audit unless two families are enabled ... *)
-Theorem c18_rate_test_partial : forall pref l, List.length pref <> 2%nat -> rate_first l = hd_error (resolve_list pref l).
-Proof. exact rate_test_partial. Qed.
-(* ... recorded finding: with two families it ignores their order *)
-Theorem c18_rate_test_order_refuted : exists pref l, pref = [4; 6] /\ dual l /\ rate_first l <> hd_error (resolve_list pref l).
-Proof. exact rate_test_order_refuted. Qed.
+(* the connection rate test picks the address the audit dials first, for every preference (fix 976e983) *)
+Theorem c18_rate_test_same_address : forall pref l, rate_first pref l = hd_error (resolve_list pref l).
+Proof. exact rate_test_same_address. Qed.
 
 (* labels: the text label ("(gen) target:", policy "Host:") is a documented spelling of exactly (host, port) *)
 Theorem c18_text_label_name : forall h p, name_ok h = true -> port_ok p = true -> parse_host_and_port (text_label h p) 22 = Ok (h, p).
